@@ -33,12 +33,15 @@ def models(tier):
                 ("two levels", cfg(MaxLev=2, MaxBox=1, MaxFile=1)),
                 # another number of species: conversions of checkpoints with 2 and with 3 species alternate in one process
                 ("three species", cfg(NS=3, MaxLev=1, MaxBox=2, MaxFile=2)),
+                # deep hierarchies: per-level quantities (cell sizes, grid sizes, box bounds) of levels 3 and 4
+                ("up to five levels, one box each", cfg(MaxLev=5, MaxBox=1, MaxFile=1)),
                 ]
     return [("layouts, 2 levels", cfg(MaxLev=2, MaxBox=2, MaxFile=2)),
             ("layouts, 3 boxes", cfg(MaxLev=1, MaxBox=3, MaxFile=2)),
             ("schedules, 3 boxes", cfg(MaxLev=1, MaxBox=3, MaxFile=3, SchedMode='"all"', W=3)),
             ("three species", cfg(NS=3, MaxLev=2, MaxBox=2, MaxFile=2)),
-            ("one species", cfg(NS=1, MaxLev=1, MaxBox=2, MaxFile=2))]
+            ("one species", cfg(NS=1, MaxLev=1, MaxBox=2, MaxFile=2)),
+            ("up to five levels", cfg(MaxLev=5, MaxBox=2, MaxFile=1))]
 
 
 def expected_comp(tok, data, box, ng, ns):
